@@ -27,6 +27,8 @@ def apply(c):
             open spec fn wf_canon(&self) -> bool { self.0.wf_canon() }
             open spec fn wf_in_rdata() -> bool { true }
             open spec fn wf_nocomp() -> bool { $w::wf_nocomp() }
+            open spec fn wf_eqv(&self, other: &Self) -> bool { self.0.wf_eqv(&other.0) }
+            proof fn lemma_det(data: Seq<u8>, p: int, v1: &Self, e1: int, v2: &Self, e2: int) { $w::lemma_det(data, p, &v1.0, e1, &v2.0, e2); }
             proof fn lemma_rt(&self, pre: Seq<u8>) { self.0.lemma_rt(pre); }
 """)
     # parse of the wrapper: `.map(|n| $t(n))` needs the closure result to be known
@@ -98,6 +100,26 @@ def apply(c):
             }
             open spec fn wf_in_rdata() -> bool { true }
             open spec fn wf_nocomp() -> bool { false }
+            open spec fn wf_eqv(&self, other: &Self) -> bool {
+                match (self, other) {
+                    $( (RData::$i(a), RData::$i(b)) => a.wf_eqv(b), )+
+                    (RData::NULL(c1, a), RData::NULL(c2, b)) => c1 == c2 && a.wf_eqv(b),
+                    (RData::Empty(t1), RData::Empty(t2)) => t1 == t2,
+                    _ => false,
+                }
+            }
+            proof fn lemma_det(data: Seq<u8>, p: int, v1: &Self, e1: int, v2: &Self, e2: int) {
+                let ty = type_of_code(be16(data[p], data[p + 1]));
+                let d2 = data.subrange(0, e1);
+                if ty == TYPE::OPT {
+                    lemma_rdata_dec_det(d2, p, ty, v1, e1, v2, e2);
+                } else if e1 == p + 10 {
+                } else {
+                    let a = choose|p3: int| p + 10 <= p3 <= e1 && #[trigger] rdata_dec(d2, p + 10, ty, v1, p3);
+                    let b = choose|p3: int| p + 10 <= p3 <= e1 && #[trigger] rdata_dec(d2, p + 10, ty, v2, p3);
+                    lemma_rdata_dec_det(d2, p + 10, ty, v1, a, v2, b);
+                }
+            }
             proof fn lemma_rt(&self, pre: Seq<u8>) {
                 match self {
                     $( RData::$i(d) => { d.lemma_rt(pre); } )+
@@ -116,6 +138,17 @@ def apply(c):
         }
         pub open spec fn rdata_cdec_opt(data: Seq<u8>, p: int, v: &RData, p2: int) -> bool {
             match v { RData::OPT(o) => OPT::wf_cdec(data, p, o, p2), _ => false }
+        }
+        /// the typed decoders are deterministic, and a record type has one variant
+        pub proof fn lemma_rdata_dec_det(data: Seq<u8>, p: int, ty: TYPE, v1: &RData, e1: int, v2: &RData, e2: int)
+            requires rdata_dec(data, p, ty, v1, e1), rdata_dec(data, p, ty, v2, e2)
+            ensures e1 == e2, v1.wf_eqv(v2)
+        {
+            match (v1, v2) {
+                $( (RData::$i(a), RData::$i(b)) => { $i::lemma_det(data, p, a, e1, b, e2); } )+
+                (RData::NULL(c1, a), RData::NULL(c2, b)) => { NULL::lemma_det(data, p, a, e1, b, e2); }
+                _ => {}
+            }
         }
         /// the payload-level decoding of a canonical value is the record-level typed decoding for its own type
         pub proof fn lemma_cdec_is_dec(v: &RData, data: Seq<u8>, p: int, p2: int)
